@@ -139,6 +139,22 @@ def build(job):
         m = cls.from_dict(dict((l, _join(tp, r)) for l, r in zip(labels, rows)))
         m.taxon_namespace.new_taxon("unused")
         return m
+    if route == "custom-alphabet+equates":
+        # a standard matrix over its own alphabet: fundamental states 0/1, missing ?, and an ambiguous and a polymorphic state that carry
+        # symbols of their own (N = {01}, P = (01)) -- what NEXUS declares with EQUATE and NeXML with uncertain/polymorphic state sets
+        from dendropy.datamodel import charstatemodel as _csm
+        sa = _csm.StateAlphabet()
+        for c in "01":
+            sa.new_fundamental_state(symbol=c)
+        sa.new_ambiguous_state(symbol="?", member_state_symbols="01")
+        sa.new_ambiguous_state(symbol="N", member_state_symbols="01")
+        sa.new_polymorphic_state(symbol="P", member_state_symbols="01")
+        sa.compile_lookup_mappings()
+        ns = dendropy.TaxonNamespace(labels)
+        m = cls(taxon_namespace=ns, default_state_alphabet=sa)
+        for t, r in zip(ns, rows):
+            m[t] = sa.get_states_for_symbols("".join(r))
+        return m
     if route == "concatenate":
         ns = dendropy.TaxonNamespace(labels)
         w = len(rows[0])
@@ -513,6 +529,17 @@ def jobs_multistate(tier):
     return out
 
 
+def jobs_equates(tier):
+    """a standard matrix whose alphabet has symbol-bearing ambiguous / polymorphic states, to the formats that can declare an alphabet (NEXUS: EQUATE; NeXML: state sets);
+    PHYLIP and FASTA carry no alphabet declaration, so a symbol outside the reader's default alphabet cannot be offered to them"""
+    out = []
+    rows = [["0", "1", "N", "?"], ["1", "P", "0", "N"], ["P", "0", "1", "1"]]
+    for target in MAIN_TARGETS:
+        if TARGETS[target][0] in ("nexus", "nexml"):
+            out.append(("roundtrip@equates", mk("standard", "custom-alphabet+equates", target, PLAIN[:3], rows), True))
+    return out
+
+
 def jobs_datasets(tier):
     out = []
     A, B, C = ["a", "b", "c"], ["x", "y", "z", "w"], ["a", "b", "q"]
@@ -553,6 +580,7 @@ SCOPES = {
     "roundtrip@labels": ("26 labels with blanks, underscores, quotes, brackets, punctuation, 10/11-character and non-ASCII labels in the middle row of a "
                          "3x4 matrix (dna, standard, continuous; thorough all types) x all 15 target variants admitting the label (NeXML: XML-safe "
                          "ASCII only), plus field-filling label triples for strict PHYLIP", True),
+    "roundtrip@equates": ("one standard matrix over a custom alphabet with symbol-bearing ambiguous and polymorphic states x the NEXUS and NeXML targets", True),
     "roundtrip@multistate": ("dna/standard/protein matrices parsed from NEXUS with {..} and (..) tokens (sequential and interleaved) x 11 targets", True),
     "datasets@namespaces<=3": ("data sets with 1-3 namespaces x 7 labelling patterns (distinct, none, equal, mixed, equal with a blank, equal with underscore/blank, equal with quote/punctuation) x 5 population patterns x "
                                "{NEXUS default titles, NEXUS suppress_block_titles=False, NeXML cells, NeXML seqs}; non-trivial = >= 2 namespaces", True),
@@ -588,7 +616,7 @@ SCOPES["roundtrip@random"] = ("seeded random contents (1-4 taxa x 1-9 columns ov
 
 def all_jobs(ctx):
     tier = ctx.tier
-    return jobs_main(tier) + jobs_labels(tier) + jobs_multistate(tier) + jobs_datasets(tier) + jobs_random(ctx)
+    return jobs_main(tier) + jobs_labels(tier) + jobs_equates(tier) + jobs_multistate(tier) + jobs_datasets(tier) + jobs_random(ctx)
 
 
 def t2(ctx):
@@ -626,6 +654,8 @@ def input_tag(job):
     """input classes that get their own monitor names (so that a finding can be pinned by name)"""
     if job.get("route") == "from_dict+extra-taxon":
         return "+unused-taxon"
+    if job.get("route") == "custom-alphabet+equates":
+        return "+equates"
     if "dataset" not in job and any(len(t) > 1 and t[0] in "{(" for r in job["rows"] for t in r if isinstance(t, str)):
         return "+multistate"
     return ""
